@@ -1370,6 +1370,13 @@ def api_races():
         b.steps.append(multi(step("close"), Y, step("addPeer", peer="p2"), Y, step("listPeers"), Y, relc()))
         b.adv(6).add("getPeer", peer="p2").delete("p2")
         out.append(b.tag("stop", "apirace").build())
+        # Close held in OnClose; a DeletePeer of that peer and a second Close must wait for the shutdown
+        b = Sb("race-close-del-%s" % d, two(gates=["OnClose#1"]))
+        b.add("addPeer", peer="p1").add("serve")
+        c = b.establish("p1", d)
+        b.steps.append(multi(step("close"), Y, step("deletePeer", peer="p1"), Y, step("close"), Y, relc()))
+        b.adv(6).add("listPeers")
+        out.append(b.tag("stop", "apirace").build())
         # DeletePeer held; reads and a delete of the other peer wait for the lock
         b = Sb("race-del-reads-%s" % d, two(gates=["OnClose#1"]))
         b.start()
@@ -1539,6 +1546,18 @@ def multi_listener():
     that counts is the connection's own, whichever listener accepted it."""
     out = []
     import itertools as it
+    # a dual-stack listener reports an IPv4 peer's addresses in IPv4-mapped form; they are IPv4 addresses
+    for withlocal in (True, False):
+        ps = [peer("pa", "10.0.0.2", localAddr="10.0.0.1" if withlocal else ""), peer("pb", "10.0.0.3", remoteAS=65003, passive=True)]
+        for dst, src in (("[::ffff:10.0.0.1]:179", "[::ffff:10.0.0.2]:41000"), ("[::ffff:10.0.0.77]:179", "[::ffff:10.0.0.2]:41000"),
+                         ("[::ffff:10.0.0.1]:179", "[::ffff:10.0.0.66]:41000")):
+            b = Sb("mlis-dual-%s-%s-%s" % (dst[8:17], src[8:17], "la" if withlocal else "nola"), ps)
+            b.listeners = ["[::]:179"]
+            b.start()
+            c = b.newconn()
+            b.add("connect", conn=c, src=src, dst=dst)
+            b.open(c, "pa").ka(c).adv(1)
+            out.append(b.tag("adm", "mlis").build())
     sets = [["0.0.0.0:179", "10.0.0.1:179"], ["10.0.0.1:179", "0.0.0.0:179"], ["10.0.0.77:179", "10.0.0.1:179"],
             ["10.0.0.1:179", "10.0.0.77:179"], ["[::]:179", "10.0.0.1:179", "[2001:db8::1]:179"], ["10.0.0.1:179"]]
     for si, ls in enumerate(sets):
